@@ -343,3 +343,23 @@ Theorem c06_fault_root_before_fix_refuted :
   walk_under_fault true false env_nohdr w_one FErrRoot = Ok [] /\ walk env_nohdr w_one <> [] /\ validate [] [] w_one [] <> [].
 Proof. exact fault_root_before_fix. Qed.
 Print Assumptions c06_fault_root_before_fix_refuted.
+
+(* c06_link_target_verbatim — a symlink target is an OPAQUE string: whatever
+   Readlink reports (in path.Clean normal form or not: "a/../b", "lib/", "./x",
+   "a//b", "/.", dangling or not, any bytes) is the Linkname of the walk's entry, of
+   the header handed to the tar writer, of the entry as written, and the target of
+   the symlink the extractor creates.  Through the bytes this is part of
+   c06_bytes_roundtrip (h_link of any length and bytes without NUL; > 100 bytes or
+   non-ASCII via the PAX linkpath record) and of c06_layer_bytes_faithful /
+   c06_extract_walk (the extracted tree has LSym tgt); here it is stated on its own
+   together with the fact goextract reads from walkFS (c06_link_target_verbatim:
+   the second argument of tar.FileInfoHeader is a local assigned exactly once, from
+   Readlink), so that an edit which rewrites the target breaks this obligation. *)
+Theorem c06_link_target_verbatim_thm :
+  c06_link_target_verbatim = true /\
+  forall ev p m tgt,
+    let e := file_entry ev p m (LSym tgt) None in
+    e_kind e = KSym /\ e_link e = tgt /\ str (h_link (hdr_of_entry e)) = tgt /\ e_link (tar_written e) = tgt /\
+    payload_of [] (tar_written e) = Ok (File (meta_of (tar_written e)) (LSym tgt) None).
+Proof. exact link_target_verbatim. Qed.
+Print Assumptions c06_link_target_verbatim_thm.
